@@ -147,12 +147,13 @@ def run_shard(spec, R):
             dist, sol, info = cap.solve_result
             flux = np.asarray(sol[w1.flux_slice], float)
             det = {**desc, "run": label}
-            if not np.all(np.isfinite(flux)) or not np.isfinite(dist):
-                R.check(False, "result_finite", {**det, "distance": float(dist)}, group=grp)
-                return None
-            # mechanism of the recorded finding: Anderson mixing on a singular least-squares problem
-            # (difference of successive increments vanishing relative to the increment itself) amplifies round-off
+            # mechanisms of the recorded findings
             aa_key = "C04:anderson_singular_least_squares" if (c["aa"] > 0 and cap.aa_singular) else None
+            if aa_key is None and formulation == "flux_reduced" and backend in ("amg", "cg") and M.num_cells + 1 > 100:
+                aa_key = "C04:flux_reduced_iterative_backend_diverges_multilevel"
+            if not np.all(np.isfinite(flux)) or not np.isfinite(dist):
+                R.check(False, "result_finite", {**det, "distance": float(dist)}, key=aa_key, group=grp)
+                return None
             # (a) mass balance by the loop divergence
             res = M.divergence(flux) - f_flat
             if float(np.max(np.abs(res))) > mb_tol * fscale and any(
